@@ -522,6 +522,7 @@ def check_compiled(p, item):
             ext = c05.ext_signatures(m, target)
             globs = [(v.name, v.amount) for v in m.variables]
             obj = ir_to_object([m], get_arch(target))
+            c05.drop_ppci_caches()
     except CpuTimeout:
         p.count("compiled_timeout")
         return
